@@ -219,13 +219,16 @@ where
 
     #[inline(always)]
     pub fn read_at(&self, index: usize, reader: &Reader) -> Result<T> {
-        let len = self.base.len();
-        if likely(index < len) {
+        let stored_len = self.stored_len();
+        if likely(index < stored_len) {
             Ok(self.unchecked_read_at(index, reader))
+        } else if let Some(value) = self.base.pushed().get(index - stored_len) {
+            // Not stored yet: reading the region here would fetch bytes past its length.
+            Ok(value.clone())
         } else {
             Err(Error::IndexTooHigh {
                 index,
-                len,
+                len: self.base.len(),
                 name: self.name().to_string(),
             })
         }
